@@ -90,9 +90,17 @@ def apply_model(sym, n, f, vals, mut_idx, st):
     local = sym.fx.by_dp.get(f.get("resolved_dp")) or sym.fx.by_dp.get(f.get("dp"))
     # calling a closure held in a variable (`let f = |x| ..; f(a)` is `Fn::call(&f, (a,))`, resolved to the closure body): the
     # argument tuple is untupled here - the closure body binds its parameters one by one
-    if p in ("std::ops::Fn::call", "std::ops::FnMut::call_mut", "std::ops::FnOnce::call_once") and len(vals) == 2 \
-            and vals[0][0] in ("closure", "fnref") and vals[1][0] == "tuple":
-        return sym.apply(vals[0], list(vals[1][1]), st, n)
+    if p in ("std::ops::Fn::call", "std::ops::FnMut::call_mut", "std::ops::FnOnce::call_once") and len(vals) == 2 and vals[1][0] == "tuple":
+        fv = vals[0]
+        if fv[0] == "place" and not fv[2] and n.get("args"):
+            # `let mut f = |x| ..; f(a)`: an FnMut closure is called through `&mut f` - the callee is the closure the variable holds
+            pl = sym.place_of(n["args"][0], st)
+            if pl is not None and pl[3] is None and not pl[2]:
+                cur = sym.read_var({"id": pl[0], "name": pl[1]}, st)
+                if cur[0] in ("closure", "fnref"):
+                    fv = cur
+        if fv[0] in ("closure", "fnref"):
+            return sym.apply(fv, list(vals[1][1]), st, n)
     if local and sym.fx.bodies[local]["krate"] in sym.krates:
         return None     # local code is inlined / kept opaque by sym, never modelled
 
